@@ -160,6 +160,24 @@ class StmtMixin:
     def exec_block(self, stmts, st):
         for s in stmts:
             self.exec_stmt(s, st)
+            self.after_stmt(s, st)
+
+    def after_stmt(self, node, st):
+        """Ghost hints of the sidecar contract: `hints={relative_line: [expr, ...]}` are proved
+        right after the statement that starts on that line and may then be used (a proved
+        intermediate assertion, never an assumption).  'pure:' hints are arithmetic facts proved
+        without the quantified spec axioms."""
+        c = self.frame.contract
+        hints = getattr(c, 'hints', None) if c is not None else None
+        if not hints or self.spec_mode:
+            return
+        rel = (getattr(node, 'lineno', 0) or 0) - (self.frame.finfo.lineno or 0)
+        for n_, text in enumerate(hints.get(rel, ())):
+            pure = text.startswith('pure:')
+            if pure:
+                text = text[5:]
+            self.oblige('hint-pure' if pure else 'hint', self.eval_spec(text, st), st, node,
+                        'ghost assertion: ' + text, detail='+%d.%d' % (rel, n_))
 
     def exec_stmt(self, node, st):
         self.cur_state = st
